@@ -13,6 +13,8 @@ import (
 	"sort"
 	"strings"
 	"text/template/parse"
+
+	"golang.org/x/tools/go/packages"
 )
 
 func init() { register("C09", checkC09) }
@@ -49,6 +51,7 @@ func checkC09(ctx *Ctx, r *Report) {
 	c09TypedConstantSetup(ctx, r)
 	c09UnfoldAccumulators(ctx, r)
 	c09ConstraintsThroughReferences(ctx, r)
+	c09FourthRound(ctx, r)
 }
 
 // (1a) order of derivation, veneers, nil checks
@@ -1051,4 +1054,198 @@ func tmplTextFull(n parse.Node) string {
 		return true
 	})
 	return b.String()
+}
+
+// c09FourthRound — third hunting pass.
+// (a) Go: the template helpers that decide "this target is a pointer" (maybeAsPointer, maybeDereference) must
+// exclude every kind the type formatter never declares with a `*`: arrays, maps, composable slots, `any` and bytes.
+// An option of an optional `any` field otherwise stores &payload — a *interface{} — instead of the value.
+// (b) Python: the second argument of an isinstance() written by a template is a class: it comes from
+// formatRuntimeClass, or from an annotation formatter under a test that excludes arrays and maps.
+// (c) struct_fields_as_arguments computes the constraints of each field: both ways of assigning the fields (one
+// assignment per field / one envelope appended to a list) have to carry them.
+func c09FourthRound(ctx *Ctx, r *Report) {
+	// (a)
+	if p := ctx.Pkg("internal/jennies/golang"); p != nil {
+		info := p.TypesInfo
+		n := 0
+		for _, file := range p.Syntax {
+			ast.Inspect(file, func(m ast.Node) bool {
+				kv, ok := m.(*ast.KeyValueExpr)
+				if !ok {
+					return true
+				}
+				key, ok := kv.Key.(*ast.BasicLit)
+				if !ok || (key.Value != `"maybeAsPointer"` && key.Value != `"maybeDereference"`) {
+					return true
+				}
+				lit, ok := kv.Value.(*ast.FuncLit)
+				if !ok {
+					return true
+				}
+				n++
+				seen := map[string]bool{}
+				visited := map[*types.Func]bool{}
+				var scan func(body ast.Node, depth int)
+				scan = func(body ast.Node, depth int) {
+					ast.Inspect(body, func(q ast.Node) bool {
+						switch x := q.(type) {
+						case *ast.Ident:
+							if c, ok := info.Uses[x].(*types.Const); ok {
+								seen[c.Name()] = true
+							}
+						case *ast.CallExpr:
+							if fn := callee(info, x); fn != nil {
+								if fn.Name() == "IsAny" {
+									seen["IsAny"] = true
+								}
+								if fn.Pkg() == p.Types && !visited[fn] && depth < 2 {
+									visited[fn] = true
+									if fd, _ := ctx.DeclOf(fn); fd != nil && fd.Body != nil {
+										scan(fd.Body, depth+1)
+									}
+								}
+							}
+						}
+						return true
+					})
+				}
+				scan(lit.Body, 0)
+				var missing []string
+				for _, k := range []string{"KindArray", "KindMap", "KindComposableSlot", "KindBytes", "IsAny"} {
+					if !seen[k] {
+						missing = append(missing, k)
+					}
+				}
+				r.Check(len(missing) == 0, "siblings/go-pointer-predicate", "golang template helper "+strings.Trim(key.Value, `"`), lit.Pos(), "excludes every kind the type formatter never declares as a pointer",
+					fmt.Sprintf("the helper treats a nullable target as a pointer without excluding %v, which golang.doFormatType never declares with a `*`: the option of an optional `any` field stores &payload (a *interface{}) instead of the value; for optional bytes the builder does not compile", missing))
+				return true
+			})
+		}
+		r.Count("pointer helpers of the Go builder templates", n)
+		r.Floor("pointer helpers of the Go builder templates", 2)
+	}
+	// (b)
+	if ts, err := loadTemplates(ctx, "python"); err != nil {
+		r.Undecided("templates of python: %v", err)
+	} else {
+		n := 0
+		annotation := map[string]bool{"formatType": true, "formatRawType": true, "formatTypeNotNullable": true, "formatRawTypeNotNullable": true, "formatFullyQualifiedRef": true}
+		for _, name := range ts.names() {
+			tree := ts.trees[name]
+			seen := map[string]int{}
+			var visit func(list *parse.ListNode, conds []string)
+			visit = func(list *parse.ListNode, conds []string) {
+				if list == nil {
+					return
+				}
+				for i, node := range list.Nodes {
+					switch x := node.(type) {
+					case *parse.IfNode:
+						visit(x.List, append(append([]string{}, conds...), x.Pipe.String()))
+						visit(x.ElseList, conds)
+					case *parse.RangeNode:
+						visit(x.List, conds)
+						visit(x.ElseList, conds)
+					case *parse.WithNode:
+						visit(x.List, conds)
+						visit(x.ElseList, conds)
+					case *parse.ActionNode:
+						// an action that follows `isinstance(<expr>, ` — possibly with the first argument's action in between
+						prev := ""
+						for j := i - 1; j >= 0 && j >= i-3; j-- {
+							if t, ok := list.Nodes[j].(*parse.TextNode); ok {
+								prev = string(t.Text) + prev
+							} else {
+								prev = "⟦⟧" + prev
+							}
+						}
+						if !regexp.MustCompile(`isinstance\([^()]*,\s*$`).MatchString(prev) {
+							continue
+						}
+						fn := ""
+						walkTmpl(x.Pipe, func(q parse.Node) bool {
+							if id, ok := q.(*parse.IdentifierNode); ok && fn == "" && (annotation[id.Ident] || id.Ident == "formatRuntimeClass") {
+								fn = id.Ident
+							}
+							return true
+						})
+						n++
+						key := fmt.Sprintf("python %s isinstance class %s", name, x.Pipe.String())
+						seen[key]++
+						cons := key
+						if seen[key] > 1 {
+							cons = fmt.Sprintf("%s #%d", key, seen[key])
+						}
+						guarded := false
+						for _, c := range conds {
+							if strings.Contains(c, "not") && strings.Contains(c, ".IsArray") && strings.Contains(c, ".IsMap") {
+								guarded = true
+							}
+						}
+						where := ts.posOf(ctx, name, x)
+						r.Check(fn == "formatRuntimeClass" || (annotation[fn] && guarded), "skeleton/python-isinstance-class", cons, token.NoPos,
+							where+": the class comes from formatRuntimeClass, or from an annotation under a test excluding arrays and maps",
+							where+": isinstance() receives the *annotation* of the type ("+x.Pipe.String()+"): `list[str]`, `dict[str, int]`, `typing.Literal[…]`, `typing.Optional[…]` and `None` are not classes — the option raises TypeError when it is given the list, map, literal or string branch of the union")
+					}
+				}
+			}
+			visit(tree.Root, nil)
+		}
+		r.Count("isinstance() calls written by the Python templates", n)
+		r.Floor("isinstance() calls written by the Python templates", 2)
+	}
+	// (c)
+	found := false
+	forEachVeneerClosure(ctx, func(p *packages.Package, fd *ast.FuncDecl, fobj *types.Func, lit *ast.FuncLit) {
+		if fd.Name.Name != "StructFieldsAsArgumentsAction" {
+			return
+		}
+		found = true
+		info := p.TypesInfo
+		// the variable holding the field's constraints
+		var cvar types.Object
+		ast.Inspect(lit.Body, func(m ast.Node) bool {
+			if as, ok := m.(*ast.AssignStmt); ok && len(as.Lhs) == 1 && len(as.Rhs) == 1 && strings.HasSuffix(exprString(as.Rhs[0]), ".Constraints") {
+				if id, ok := as.Lhs[0].(*ast.Ident); ok && cvar == nil {
+					cvar = objOf(info, id)
+				}
+			}
+			return true
+		})
+		if cvar == nil {
+			r.Undecided("anchor changed: StructFieldsAsArgumentsAction no longer reads the constraints of a field into a variable")
+			return
+		}
+		n := 0
+		ast.Inspect(lit.Body, func(m ast.Node) bool {
+			is, ok := m.(*ast.IfStmt)
+			if !ok || is.Else == nil || !strings.Contains(exprString(is.Cond), "assignIntoList") {
+				return true
+			}
+			uses := func(b ast.Node) bool {
+				u := false
+				ast.Inspect(b, func(q ast.Node) bool {
+					if id, ok := q.(*ast.Ident); ok && objOf(info, id) == cvar {
+						u = true
+					}
+					return true
+				})
+				return u
+			}
+			inBody, inElse := uses(is.Body), uses(is.Else)
+			if !inBody && !inElse {
+				return true
+			}
+			n++
+			r.Check(inBody && inElse, "effects/envelope-keeps-constraints", ctx.FuncName(fobj)+" uses the field's constraints on both ways of assigning it", is.Pos(), "the per-field assignment and the appended envelope both carry them",
+				"struct_fields_as_arguments computes the constraints of each field and only one of its two branches (one assignment per field / one envelope appended to a list) uses them: `links(title, url)` accepts a title the schema forbids while `link(title, url)` reports it — in Python nothing checks it later")
+			return true
+		})
+		r.Count("branches of struct_fields_as_arguments that assign a field", n)
+		r.Floor("branches of struct_fields_as_arguments that assign a field", 1)
+	})
+	if !found {
+		r.Undecided("anchor lost: option.StructFieldsAsArgumentsAction")
+	}
 }
